@@ -1,6 +1,7 @@
 import GormModel.Drv.Util
 import GormModel.Model.StmtCache
 import GormModel.Model.StmtCacheStore
+import GormModel.Model.StmtCacheKinds
 open Lean
 namespace Gorm.Drv
 open Gorm.SC
@@ -183,6 +184,42 @@ def poolJ (w : World) (p : Pool) : Json :=
   Json.mkObj [("kind", Json.str kind), ("struct", optIdJ (structOf p)), ("cache", optIdJ (cacheOfPool w p)),
               ("map", optIdJ (mapOfPool w p))]
 
+
+/-! `["sc.kinds", prepare, [[kind, a, b, c]…]]` — the pool-kind world of Model/StmtCacheKinds.lean, instantiated with the
+    configuration regenerated from gorm.go / prepare_stmt.go (`genKCfg`): per handle what `Config.ConnPool` and
+    `Statement.ConnPool` are and finally run on, per cached text what the statement is bound to, per use where it ran. -/
+
+open Gorm.SCK in
+def parseKOp (j : Json) : Option KOp := do
+  let a ← jArr? j
+  let k ← jStr? (arg a 0)
+  let n ← jNat? (arg a 1)
+  match k with
+  | "session" => some (.session n ((jBool? (arg a 2)).getD false))
+  | "begin" => some (.begin n)
+  | "connection" => some (.connection n)
+  | "endTx" => some (.endTx n)
+  | "endConn" => some (.endConn n)
+  | "use" => some (.use n ((jNat? (arg a 2)).getD 0) ((jBool? (arg a 3)).getD false))
+  | "reset" => some (.reset n)
+  | _ => none
+
+open Gorm.SCK in
+def baseS (w : KWorld) : Base → String
+  | .root => "root"
+  | .conn c => s!"conn{c}"
+  | .tx t => if w.anon.contains t then "tx?" else s!"tx{t}"
+
+open Gorm.SCK in
+def kpoolS (w : KWorld) : KPool → String
+  | .raw b => "raw>" ++ baseS w b
+  | .pdb s => "pdb>" ++ baseS w (baseOf w (.pdb s))
+  | .ptx s t => "ptx>" ++ baseS w (.tx t) ++ "/" ++ baseS w (baseOf w (.pdb s))
+
+open Gorm.SCK in
+def kresS : Gorm.SCK.Res → String
+  | .ok => "ok" | .connDone => "connDone" | .txDone => "txDone"
+
 end HC14
 open HC14 in
 def handleC14 (op : String) (args : Array Json) : Option Json := do
@@ -220,6 +257,21 @@ def handleC14 (op : String) (args : Array Json) : Option Json := do
     let w := Gorm.SCS.runD Gorm.SCS.genSCfg prepare seq
     some (Json.mkObj [("handles", Json.arr ((w.handles.map (poolJ w)).toArray)), ("caches", natJ w.nC),
                       ("one_cache", Json.bool (Gorm.SCS.oneCacheB w)), ("stored", optIdJ w.store)])
+  | "sc.kinds" =>
+    let prepare ← jBool? (arg args 1)
+    let seq ← (← jArr? (arg args 2)).toList.mapM parseKOp
+    let w := Gorm.SCK.runK Gorm.SCK.genKCfg prepare seq
+    some (Json.mkObj [
+      ("handles", Json.arr ((w.handles.map fun hd => Json.mkObj [("cfg", Json.str (kpoolS w hd.cfg)), ("stmt", Json.str (kpoolS w hd.stmt))]).toArray)),
+      ("entries", Json.arr ((w.entries.map fun e => Json.mkObj [("text", natJ e.text), ("on", Json.str (baseS w e.on)), ("tx", Json.bool e.txFlag)]).toArray)),
+      ("log", Json.arr ((w.log.map fun o => Json.mkObj [("h", natJ o.h), ("text", natJ o.text), ("res", Json.str (kresS o.res)),
+                                                         ("ran_on", Json.str (baseS w o.ranOn)), ("want", Json.str (baseS w o.want))]).toArray)),
+      ("caches", natJ w.nC), ("pinned_prep", Json.bool w.pinnedPrep)])
+  | "sc.kcfg" =>
+    let c := Gorm.SCK.genKCfg
+    some (Json.mkObj [("good", Json.bool (c == Gorm.SCK.good)), ("open_arg_config", Json.bool (c.openArg == .config)),
+                      ("sess_arg_config", Json.bool (c.sessArg == .config)), ("sess_registered", Json.bool (c.sessPool == .registered)),
+                      ("tx_prep_on_tx", Json.bool c.txPrepOnTx)])
   | "sc.cfg" =>
     -- the regenerated configuration the models are instantiated with (harness: generators and probes follow it)
     some (Json.mkObj [("sess_reuse", Json.bool Gorm.SCS.genSCfg.sessReuse), ("sess_atomic", Json.bool Gorm.SCS.genSessAtomic),
